@@ -928,6 +928,20 @@ enum Job {
 }
 
 fn run_job(job: &Job, drv: &mut Driver) -> Vec<Outcome> {
+    let outs = run_job_inner(job, drv);
+    // debugging aid: VERIF_C12_DUMP=<file> appends every request line (they can be piped into drv_c12)
+    if let Ok(p) = std::env::var("VERIF_C12_DUMP") {
+        use std::io::Write;
+        if let Ok(mut f) = std::fs::OpenOptions::new().create(true).append(true).open(p) {
+            for o in &outs {
+                let _ = writeln!(f, "{}", o.input);
+            }
+        }
+    }
+    outs
+}
+
+fn run_job_inner(job: &Job, drv: &mut Driver) -> Vec<Outcome> {
     match job {
         Job::Line(l, e) => {
             if l.starts_with("case ") {
